@@ -490,6 +490,35 @@ func c13Check(c C13Case, cx *h.Ctx) *h.Failure {
 			return f
 		}
 	}
+	// hull and rectangles are functions of the XY control points only: the same geometry carrying Z, M or ZM
+	// payload (every position its own values) gives bit-identical XY results
+	if model.CT == 0 {
+		for lct := 1; lct <= 3; lct++ {
+			lg := c16TagWith(forceCT(model, lct), lct%2 == 1).ToGeom()
+			var lh geom.Geometry
+			h.Lib("ConvexHull", func() { lh = lg.ConvexHull() })
+			if d := gm.Diff(hull, gm.FromGeom(lh)); d != "" {
+				return h.Failf("hull/zm-dependent", "ConvexHull of the same XY geometry with %s payload differs: %s%s", gm.CTName(lct), d, desc())
+			}
+			var lra gm.G
+			h.Lib("RotatedMinimumAreaBoundingRectangle", func() { lra = gm.FromGeom(geom.RotatedMinimumAreaBoundingRectangle(lg)) })
+			if d := gm.Diff(ra, lra); d != "" {
+				return h.Failf("rect/zm-dependent", "RotatedMinimumAreaBoundingRectangle of the same XY geometry with %s payload differs: %s%s", gm.CTName(lct), d, desc())
+			}
+		}
+	}
+	// results are values: the hull returned first still reads the same after all the later calls, including
+	// hulls of other geometries with fewer, as many and more vertices
+	for _, k := range []int{3, 4, 5, 8, 13} {
+		other := gm.G{T: gm.MultiPoint}
+		for i := 0; i < k; i++ {
+			other.Mem = append(other.Mem, gm.G{T: gm.Point, Co: gm.Fs(5000+float64(i*i), 7000+float64(i*(k-i)+i))})
+		}
+		_ = other.ToGeom().ConvexHull()
+	}
+	if d := gm.Diff(hull, gm.FromGeom(hullG)); d != "" {
+		return h.Failf("hull/result-overwritten", "the geometry returned by the first ConvexHull call changed while later hulls were computed: %s%s", d, desc())
+	}
 	// non-trivial: non-collinear and a collinear triple / duplicate among the control points on the hull boundary
 	if hull.T == gm.Polygon && len(hull.Rings) > 0 {
 		ring := hullRing(hull)
